@@ -266,7 +266,7 @@ class SpecCheck:
                         stats.add("texts_per_spec=%d" % len(texts))
                         for r in per_seed.values():
                             if r["status"] != "ok":
-                                stats.add("rejected:%s" % r["reject"]["exc"])
+                                stats.add("rejected:%s" % (r.get("reject") or {}).get("exc", r["status"]))
                         if self.nontrivial(spec, meta):
                             for t in texts:
                                 nontrivial_keys.add((orch.sha(self.case_text(spec)), orch.sha(t)))
